@@ -63,7 +63,7 @@ extern "C" double w_MPSgetRHS(double left, double right)
 }
 #endif
 
-#ifdef INST_MPSgetRHS_rat
+#if defined(INST_MPSgetRHS_rat) || defined(INST_LPFwriteBounds_rat)
 /* Rational twin (spxlpbase_rational.hpp).  Rational = ordered-group long long: the body only copies its arguments and
  * compares double(x) with +-double(infinity).  A long long cannot reach the threshold 1e100 the code uses, so the
  * conversion is the MONOTONE map that sends the sentinel range |v| >= RAT_INF to +-infinity and is exact below it
@@ -73,7 +73,14 @@ struct Rational
    long long v;
    Rational() {}
    operator double() const { return v >= RAT_INF ? infinity : v <= -RAT_INF ? -infinity : (double)v; }
+   bool operator==(const Rational& o) const { return v == o.v; }
+   bool operator!=(int i) const { return v != i; }
+   bool operator==(int i) const { return v == i; }
+   bool operator>(int i) const { return v > i; }
+   bool operator>=(const Rational& o) const { return v >= o.v; }
 };
+#endif
+#ifdef INST_MPSgetRHS_rat
 static Rational MPSgetRHS(Rational left, Rational right)
 {
 #include "MPSgetRHS_rat.inc"
@@ -141,6 +148,107 @@ extern "C" void w_LPFwriteRows(double* lhs, double* rhs, int nr)
    LP lp; lp.left = lhs; lp.right = rhs; lp.nr = nr; lp.vecs = vecs;
    OStub out; out.unused = 0;
    H h; h.p_lp_ = &lp; h.p_output_ = &out; h.p_rnames = 0; h.p_cnames = 0;
+   h.body();
+}
+#endif
+
+#if defined(INST_LPFwriteBounds) || defined(INST_LPFwriteBounds_rat)
+/* LPFwriteBounds (real: spxlpbase_real.hpp, R = double; rational twin: spxlpbase_rational.hpp, Rational = ordered-group long long).
+ * The stream stub collects the events of the CURRENT LINE; at the end of a line that names the ghost column g_j the
+ * line is copied to w_k/w_v and judged by the specification function spec_bounds_line_ok() of contract.c. */
+#ifdef INST_LPFwriteBounds_rat
+typedef long long NUMV;
+#define NUMVAL(x) ((x).v)
+typedef Rational NUMT;
+#define SOPLEX_MAX_LINE_WRITE_LEN 65536
+#define SPX_MSG_WARNING(a, b)
+struct SPxOut { int unused; };
+#else
+typedef double NUMV;
+#define NUMVAL(x) (x)
+typedef double NUMT;
+#endif
+extern "C" {
+   extern int l_n, l_name, l_bad, l_k[8], w_n, w_lines, w_ok, w_k[8], g_j; extern NUMV l_v[8], w_v[8];
+   int spec_bounds_line_ok(void);
+}
+enum { B_OTHER = 0, B_IND = 1, B_NUM = 2, B_LE = 3, B_EQ = 4, B_NAME = 5, B_NEGINF_LE = 6, B_FREE = 7, B_NL = 8 };
+static inline void bev(int k, NUMV v)
+{
+   if(l_n < 8) { l_k[l_n] = k; l_v[l_n] = v; } else l_bad = 1;
+   if(l_n < 100) l_n++;
+}
+static inline void endline()
+{
+   if(l_name == g_j)
+   {
+      w_k[0] = l_k[0]; w_k[1] = l_k[1]; w_k[2] = l_k[2]; w_k[3] = l_k[3]; w_k[4] = l_k[4]; w_k[5] = l_k[5]; w_k[6] = l_k[6]; w_k[7] = l_k[7];
+      w_v[0] = l_v[0]; w_v[1] = l_v[1]; w_v[2] = l_v[2]; w_v[3] = l_v[3]; w_v[4] = l_v[4]; w_v[5] = l_v[5]; w_v[6] = l_v[6]; w_v[7] = l_v[7];
+      w_n = l_n;
+      if(w_lines < 100) w_lines++;
+      w_ok = (l_bad == 0 && spec_bounds_line_ok()) ? 1 : 0;
+   }
+   l_n = 0; l_name = -1; l_bad = 0;
+}
+struct BStub
+{
+   int unused;
+   BStub& operator<<(const char* s)
+   {
+      if(s[0] == 'N' && s[1] == 0) bev(B_NAME, 0);
+      else if(s[0] == ' ' && s[1] == ' ' && s[2] == 0) bev(B_IND, 0);
+      else if(s[0] == ' ' && s[1] == '=' && s[2] == ' ' && s[3] == 0) bev(B_EQ, 0);
+      else if(s[0] == ' ' && s[1] == '<' && s[2] == '=' && s[3] == ' ' && s[4] == 0) bev(B_LE, 0);
+      else if(s[0] == ' ' && s[1] == ' ' && s[2] == ' ' && s[3] == '-' && s[4] == 'I' && s[5] == 'n' && s[6] == 'f' && s[7] == ' ' && s[8] == '<' && s[9] == '=' && s[10] == ' ' && s[11] == 0) bev(B_NEGINF_LE, 0);
+      else if(s[0] == ' ' && s[1] == 'f' && s[2] == 'r' && s[3] == 'e' && s[4] == 'e' && s[5] == '\n' && s[6] == 0) { bev(B_FREE, 0); endline(); }
+      else if(s[0] == 'B' && s[1] == 'o' && s[6] == '\n' && s[7] == 0) { if(l_n != 0) l_bad = 1; endline(); }       /* "Bounds\n" */
+      else bev(B_OTHER, 0);
+      return *this;
+   }
+   BStub& operator<<(char c) { if(c == '\n') { bev(B_NL, 0); endline(); } else bev(B_OTHER, 0); return *this; }
+   BStub& operator<<(const NUMT& v) { bev(B_NUM, NUMVAL(v)); return *this; }
+   long long tellp() const { return 0; }      /* rational twin: the line-length warning is not modelled */
+};
+struct BLP
+{
+   NUMT* low; NUMT* up; int nc;
+   int nCols() const { return nc; }
+   const NUMT& lower(int j) const { __CPROVER_assert(0 <= j && j < nc, "lower index in bounds"); return low[j]; }
+   const NUMT& upper(int j) const { __CPROVER_assert(0 <= j && j < nc, "upper index in bounds"); return up[j]; }
+};
+/* stub of getColName: remembers which column the current line names (two names on one line: bad), returns a marker */
+static const char* getColName(const BLP& p_lp, int p_idx, const NameSet* p_cnames, char* p_buf)
+{
+   if(l_name != -1) l_bad = 1;
+   l_name = p_idx;
+   p_buf[0] = 'N'; p_buf[1] = 0;
+   return p_buf;
+}
+struct H
+{
+   const BLP* p_lp_; BStub* p_output_; const NameSet* p_cnames;
+#ifdef INST_LPFwriteBounds_rat
+   SPxOut* spxout;
+#endif
+   void body()
+   {
+      const BLP& p_lp = *p_lp_; BStub& p_output = *p_output_;
+#ifdef INST_LPFwriteBounds_rat
+#include "LPFwriteBounds_rat.inc"
+#else
+#include "LPFwriteBounds.inc"
+#endif
+   }
+};
+extern "C" void w_LPFwriteBounds(NUMV* lower, NUMV* upper, int nc)
+{
+   VIN("nc", nc); VIN_ARR8("lower", lower, nc); VIN_ARR8("upper", upper, nc);
+   BLP lp; lp.low = (NUMT*)lower; lp.up = (NUMT*)upper; lp.nc = nc;
+   BStub out; out.unused = 0;
+   H h; h.p_lp_ = &lp; h.p_output_ = &out; h.p_cnames = 0;
+#ifdef INST_LPFwriteBounds_rat
+   h.spxout = 0;
+#endif
    h.body();
 }
 #endif
